@@ -103,8 +103,36 @@ pub fn build_pair(tape: &[u8], gates: &Gates, opts: &SpellOpts, valid: bool) -> 
         let rest = p.t.rest().to_vec();
         (p.finish(), rest)
     };
-    let (canon, _) = layout(&lexemes, &SpellOpts::canonical(), &mut Tape::empty());
+    // the optional ';' after END_IF: the canonical text writes every one, the re-spelled text
+    // writes or omits each occurrence independently
+    let is_end_if = |l: &Lexeme| l.text == "END_IF" && l.class == Class::Keyword;
+    let mut canon_lex: Vec<Lexeme> = Vec::with_capacity(lexemes.len() + 8);
+    for (i, l) in lexemes.iter().enumerate() {
+        canon_lex.push(l.clone());
+        if is_end_if(l) && lexemes.get(i + 1).map(|n| n.text != ";").unwrap_or(true) {
+            canon_lex.push(Lexeme { text: ";".into(), class: Class::Punct, join: crate::lexeme::Join::Tight, mark: None });
+        }
+    }
     let mut lt = Tape::new(&rest);
+    let mut end_if_toggled = 0usize;
+    let mut lexemes: Vec<Lexeme> = Vec::with_capacity(canon_lex.len());
+    let mut i = 0;
+    while i < canon_lex.len() {
+        lexemes.push(canon_lex[i].clone());
+        if is_end_if(&canon_lex[i]) && lt.ratio(1, 2) {
+            // omit this END_IF's semicolon (gated: directly after another END_IF without one)
+            let after_bare_end_if = lexemes.len() >= 2 && is_end_if(&lexemes[lexemes.len() - 2]);
+            if !after_bare_end_if || gates.want("END_IF_WITHOUT_SEMICOLON_AFTER_END_IF") {
+                i += 1; // skip the ';'
+                end_if_toggled += 1;
+            }
+        }
+        i += 1;
+    }
+    if end_if_toggled > 0 {
+        gates.hit("c08.end_if.semicolon-omitted");
+    }
+    let (canon, _) = layout(&canon_lex, &SpellOpts::canonical(), &mut Tape::empty());
     let (resp, spelled) = layout(&lexemes, opts, &mut lt);
     let mut kw_changed = 0;
     let mut id_changed = 0;
